@@ -52,6 +52,10 @@ def alphabet(tier, depth):
         for f in ('Fab', 'Fb', 'FA'):
             ops.append(('reloadconfig-bad', f))
             ops.append(('reloadconfig-mid', f))
+        # rm / add sent while a (warmup-paced) reload is in progress: answered ok means done, refused means nothing happened
+        for n in ('a', 'A', 'b'):
+            ops.append(('rm-busy', n))
+        ops.append(('add-busy', 'new'))
     return ops
 
 
@@ -136,7 +140,8 @@ def run_seq(r, case):
         for step, (op, arg) in enumerate(seq):
             where = 'arbiter.%s' % {'add': 'add_watcher', 'add+start': 'add_watcher', 'rm': 'rm_watcher',
                                    'rm-nostop': 'rm_watcher', 'reloadconfig': 'reload_from_config',
-                                   'reloadconfig-bad': 'reload_from_config', 'reloadconfig-mid': 'reload_from_config'}.get(op, op)
+                                   'reloadconfig-bad': 'reload_from_config', 'reloadconfig-mid': 'reload_from_config',
+                                   'rm-busy': 'rm_watcher/while-another-command-runs', 'add-busy': 'add_watcher/while-another-command-runs'}.get(op, op)
             desc = lambda: 'step %d %s(%r) of %s' % (step, op, arg, json.dumps(seq))     # noqa: E731
             victims = None
             if op in ('add', 'add+start'):
@@ -169,6 +174,25 @@ def run_seq(r, case):
                 if ok:
                     accepted_change = True
                     ref.pop(arg.lower(), None)
+            elif op in ('rm-busy', 'add-busy'):
+                ws_ = [(n_, dict(wopts)) for n_ in sorted(ref.values())] or [('a', dict(wopts))]
+                ws_[-1][1].update(numprocesses=2, warmup_delay=1, cmd='sleep 61')
+                write_ini(ini, ws_)
+                rl = w.request('reloadconfig')
+                w.run(horizon=0.3)
+                if rl.ok():
+                    ref = {n_.lower(): n_ for n_, _ in ws_}
+                if op == 'rm-busy':
+                    rq = w.request('rm', name=arg)
+                    if rq.ok():
+                        ref.pop(arg.lower(), None)
+                else:
+                    rq = w.request('add', name=arg, cmd='sleep 60', options={'graceful_timeout': 0.1})
+                    if rq.ok():
+                        ref[arg.lower()] = arg
+                        by_command.add(arg.lower())
+                accepted_change = accepted_change or rq.ok()
+                lenient = bool(by_command & set(ref))
             elif op in ('start', 'stop'):
                 rq = w.request(op, name=arg, match='simple')
                 r.check('C15.case_routing', rq.ok() == (arg.lower() in ref),
@@ -214,7 +238,7 @@ def run_seq(r, case):
                             case, fp='rm-nostop', nontrivial=bool(victims))
             w.kernel.popen_fault = None
             v = views(w)
-            if op.startswith('reloadconfig') and lenient and isinstance(v['list'], list):
+            if (op.startswith('reloadconfig') or op.endswith('-busy')) and lenient and isinstance(v['list'], list):
                 # reloadconfig over watchers created by `add` is outside C12/C15 (it fails on their missing _cfg):
                 # only the coherence of the views among themselves is judged for this step
                 ref = {n.lower(): n for n in v['list']}
